@@ -23,6 +23,8 @@ class Registry:
         self.atoms = {}        # z3 ast id -> (term, known_positive)
         self.defs = {}         # name of a defined (max) variable -> list of z3 constraints
         self.variables = {}    # name -> (z3 const, known_positive)
+        self.max_args = {}     # name of a max variable -> the V's it is the maximum of
+        self.path_pos = set()  # atoms proved positive under the current path condition only (cleared per path)
         self.counter = 0
         self.generation = getattr(self, "generation", 0) + 1
 
@@ -38,7 +40,7 @@ def _reg(term, pos):
 
 
 def atom_pos(i):
-    return REG.atoms[i][1]
+    return REG.atoms[i][1] or i in REG.path_pos
 
 
 def _prod_term(c, at):
@@ -124,10 +126,12 @@ class V:
     def known_pos(self):
         if self._pos is None:
             self._pos = self.c > 0 and all(REG.atoms[i][1] for i in self.at)
+        if not self._pos and REG.path_pos and self.c > 0:
+            return all(atom_pos(i) for i in self.at)      # path-scoped knowledge is never cached on the value
         return self._pos
 
     def known_nonzero(self):
-        return self.c != 0 and all(REG.atoms[i][1] for i in self.at)
+        return self.c != 0 and all(atom_pos(i) for i in self.at)
 
     def key(self):
         return (self.c, tuple(sorted(self.at.items())))
@@ -156,7 +160,7 @@ class V:
         if self.c == 0:
             raise EncodingGap("division by a syntactic zero")
         for i in self.at:
-            if not REG.atoms[i][1] and self.at[i] > 0:
+            if not atom_pos(i) and self.at[i] > 0:
                 raise EncodingGap("division by a term of unknown sign")
         return V(1 / self.c, {i: -k for i, k in self.at.items()})
 
@@ -232,7 +236,7 @@ class V:
         for i in set(self.at) | set(o.at):
             ks = self.at.get(i, 0)
             ko = o.at.get(i, 0)
-            if REG.atoms[i][1]:
+            if atom_pos(i):
                 m = min(ks, ko)
                 ks -= m
                 ko -= m
@@ -363,6 +367,7 @@ def vmax(vals):
         eqs.append(e if not isinstance(e, bool) else z3.BoolVal(e))
     cs.append(z3.Or(eqs))
     REG.defs[name] = cs
+    REG.max_args[name] = vals
     return m
 
 
